@@ -55,6 +55,9 @@ pub enum TOp {
     /// a preventer held for `ms` milliseconds (calling the shared function all the while): the
     /// waiters wait that long
     PreventerHold { ms: u16 },
+    /// like Injector, but first the holder offers a fake of the wrong type (refused with a panic
+    /// that the holder catches) and goes on using the same injector
+    InjectorAfterRefusal { calls: u8 },
 }
 
 #[derive(Serialize, Deserialize, Clone, Debug, Hash, PartialEq, Eq)]
@@ -193,6 +196,43 @@ fn run_op(t: usize, op: &TOp, foreign: &std::sync::Mutex<Vec<String>>) -> Result
             });
             ip::MPROTECT_FAIL_PAGE.store(0, SeqCst);
             Ok(())
+        }
+        TOp::InjectorAfterRefusal { calls } => {
+            #[inline(never)]
+            fn wrong_type(_a: u32) -> u64 {
+                black_box(3)
+            }
+            let r = std::panic::catch_unwind(|| {
+                if HOLDERS.load(SeqCst) > 0 {
+                    CONTENDED.fetch_add(1, SeqCst);
+                }
+                let mut inj = ip::sut(InjectorPP::new);
+                let _h = Holding::enter();
+                let refused = std::panic::catch_unwind(std::panic::AssertUnwindSafe(|| {
+                    ip::sut(|| inj.when_called(injectorpp::func!(fn (shared_fn)() -> u64)).will_execute_raw(injectorpp::func!(fn (wrong_type)(u32) -> u64)))
+                }));
+                if refused.is_ok() {
+                    foreign.lock().unwrap().push(format!("thread {t}: a fake of the wrong type was accepted"));
+                }
+                // the injector is still alive and still this thread's: give it time to be overtaken
+                for _ in 0..200 {
+                    std::hint::spin_loop();
+                }
+                std::thread::yield_now();
+                ip::sut(|| inj.when_called(injectorpp::func!(fn (shared_fn)() -> u64)).will_execute_raw(fake_ptr(t)));
+                for _ in 0..*calls {
+                    let v = shared_fn();
+                    if v != 100 + (t as u64 % 8) {
+                        foreign.lock().unwrap().push(format!("thread {t} holding an injector (after a refused fake) with its fake {} saw {v}", 100 + t % 8));
+                    }
+                }
+                drop(_h);
+                ip::sut(|| drop(inj));
+            });
+            match r {
+                Ok(()) => Ok(()),
+                Err(_) => Err(format!("thread {t}: injector operation panicked: {}", crate::worker::last_panic())),
+            }
         }
         TOp::PreventerHold { ms } => {
             let r = std::panic::catch_unwind(|| {
@@ -375,6 +415,7 @@ pub fn execute(c: &ThreadCase) -> ThreadObs {
                 TOp::Spin(_) => "spin",
                 TOp::InjectorRestoreFault { .. } => "injector/restoration-fault",
                 TOp::PreventerHold { .. } => "preventer/drop",
+                TOp::InjectorAfterRefusal { .. } => "injector/after-refusal",
             });
         }
     }
@@ -393,6 +434,7 @@ pub fn strategy() -> impl Strategy<Value = ThreadCase> {
         3 => (0u8..6, prop::bool::weighted(0.25)).prop_map(|(calls, exit_panic)| TOp::Preventer { calls, exit_panic }),
         1 => (0u16..400).prop_map(TOp::Spin),
         1 => (0u8..3).prop_map(|calls| TOp::InjectorRestoreFault { calls }),
+        1 => (1u8..4).prop_map(|calls| TOp::InjectorAfterRefusal { calls }),
     ];
     let script = prop::collection::vec(op, 1..=12);
     (prop::collection::vec(script, 2..=8), prop::collection::vec((0u8..4, 0u8..24), 0..=4), prop_oneof![1 => Just(0u16), 3 => 100u16..2000]).prop_map(|(scripts, pauses, pause_us)| ThreadCase { scripts, pauses, pause_us })
@@ -454,6 +496,9 @@ pub fn judge(rec: &mut Recorder, c: &ThreadCase, ex: Exec, _hello: &Value) -> Re
     rec.count("pauses_taken", o.pauses_taken);
     let both_kinds = o.kinds.iter().any(|k| k.starts_with("injector")) && o.kinds.iter().any(|k| k.starts_with("preventer"));
     let both_exits = o.kinds.iter().any(|k| k.ends_with("panic")) && o.kinds.iter().any(|k| k.ends_with("/drop"));
+    if o.kinds.iter().any(|k| k == "injector/after-refusal") {
+        rec.class("has-injector-kept-after-a-refused-fake");
+    }
     if o.kinds.iter().any(|k| k == "injector/restoration-fault") {
         rec.class("has-exit-with-failing-restoration");
     }
